@@ -17,7 +17,7 @@ ASSUMPTIONS = ['proposals are taken from the rules\' own apply() (C15 judges tho
                'a NaN proposal has no clipped value: any outcome other than a duty cycle in [-1,1] or a raised error is a violation']
 EXPLANATION = 'exhaustive rule multisets x state grid on the real PWMControl; simulations with recording proxies'
 
-MENU_Q = ['cA', 'cB', 'reach', 'prop', 'lim', 'limlow', 'sNone', 's0.5', 's-3', 's1e9']
+MENU_Q = ['cA', 'cB', 'c0', 'reach', 'prop', 'lim', 'limlow', 'sNone', 's0', 's0.5', 's-3', 's1e9']
 MENU_T = MENU_Q + ['cC', 's-1e9']
 TIMES = [0.1, 0.45, 0.7, 2.5, 5.0]
 POSITIONS = [-1.0, 0.5, 3.5, 8.5, 12.0]
